@@ -100,8 +100,9 @@ def schemaFor (ver kind : String) : Option Sch :=
     if kind == "cfg" then some c else if kind == "def" then some d else if kind == "lock" then some l else none
 
 def doHash (ver kind val : String) : String :=
+  if kind != "cfg" && kind != "def" && kind != "lock" then "bad-op" else
   match schemaFor ver kind with
-  | none => "bad-op"
+  | none => "err"   -- getDefinitionHashFunc / hashLock: unknown version
   | some sch =>
     let bs := val.toUTF8
     match parseVal bs 0 with
